@@ -677,20 +677,31 @@ theorem piInner_safe (t : Bytes) : ∀ (f : Nat) (sp p : Pos), p.pos ≤ t.lengt
           rw [if_pos hd62]
           exact ⟨by simp; omega, by simp; omega⟩
         · rw [if_neg hd62]
-          obtain ⟨r, hr, r1, r2, _⟩ := skipSpace_ok t ⟨p.line, p.pos + k + 1, p.ls⟩ (by simp; omega)
-          rw [hr]; simp only [Res.ok_bind]
-          simp at r1
-          refine (ih sp r.1 r2 (by omega)).mono ?_
+          refine (ih sp ⟨p.line, p.pos + k + 1, p.ls⟩ (by simp; omega) (by simp; omega)).mono ?_
           intro q ⟨q1, q2⟩
+          simp at q1
           exact ⟨by omega, q2⟩
-      · rw [if_neg h63]
-        obtain ⟨r, hr, r1, r2⟩ := skipSpace_adv_lb t ⟨p.line, p.pos + k, p.ls⟩ (by simpa using hlt)
-          (by simpa using piStop_cases hstop h63)
-        rw [hr]; simp only [Res.ok_bind]
-        simp at r1
-        refine (ih sp r.1 r2 (by omega)).mono ?_
-        intro q ⟨q1, q2⟩
-        exact ⟨by omega, q2⟩
+      rw [if_neg h63]
+      by_cases h13 : t.getD (p.pos + k) 0 = 13
+      · obtain ⟨d, hd, hdnz, _⟩ := peek_le (show p.pos + k + 1 ≤ t.length by omega)
+        rw [if_pos h13, hd]; simp only [Res.ok_bind]
+        by_cases hd10 : d = 10
+        · have hlt2 : p.pos + k + 1 < t.length := hdnz (by rw [hd10]; decide)
+          simp only [hd10, if_true]
+          refine (ih sp ⟨p.line + 1, p.pos + k + 2, p.pos + k + 2⟩ (by simp; omega) (by simp; omega)).mono ?_
+          intro q ⟨q1, q2⟩
+          simp at q1
+          exact ⟨by omega, q2⟩
+        · simp only [hd10, if_false]
+          refine (ih sp ⟨p.line + 1, p.pos + k + 1, p.pos + k + 1⟩ (by simp; omega) (by simp; omega)).mono ?_
+          intro q ⟨q1, q2⟩
+          simp at q1
+          exact ⟨by omega, q2⟩
+      rw [if_neg h13]
+      refine (ih sp ⟨p.line + 1, p.pos + k + 1, p.pos + k + 1⟩ (by simp; omega) (by simp; omega)).mono ?_
+      intro q ⟨q1, q2⟩
+      simp at q1
+      exact ⟨by omega, q2⟩
 
 theorem piLoop_safe (t : Bytes) : ∀ (f : Nat) (p : Pos), p.pos ≤ t.length → t.length - p.pos < f →
     (piLoop t f p).Safe (fun q => p.pos ≤ q.pos ∧ q.pos ≤ t.length) := by
